@@ -28,6 +28,7 @@ package config
 //@   trusted
 //@   pure
 //@   ensures result1 == nil ==> result0 != nil
+//@   ensures[C13] configuration-failure: result1 != nil ==> srverr(result1)
 
 //@ func (*Config).BatchCheckMaxBatchSize
 //@   trusted
